@@ -30,8 +30,15 @@ def impl(head, last, changes, step, mode, palette='count'):
     probes = []
     val = PALETTES[palette]
 
+    class ProbeBudget(Exception):
+        pass
+
     def get(level):
         probes.append(level)
+        if len(probes) > 40 * (head - last + 2):
+            # the model never probes a level more than a few times (invariant ProbesInRange / the bisection bound): a search that keeps
+            # probing does not terminate
+            raise ProbeBudget('more than %d probes for a range of %d levels' % (len(probes) - 1, head - last))
         return val(sum(1 for c in cs if c <= level))
     eq = lambda a, b: a == b
     if palette == 'noisy':       # the representation differs from level to level; only the caller's equals says what a change is
